@@ -15,6 +15,10 @@
 # siblings (bin-extra, libexec, share/locale-archive ...), with every single documented tag selected; the expected
 # selection comes from the tag list of Installing.md (c11model.documented_tags).
 # Family L: install_subdir() trees that hold a symlink to a directory x follow_symlinks {unset, true, false}.
+# Family N: the shape of the NAME given to install_subdir() (one / several components, trailing slash, last component repeated
+# earlier, space and non-ASCII in a non-last component, call in a nested meson.build) x strip_directory {unset, false, true} x
+# exclude lists (entries relative to the installed directory, decoys relative to anything else) x install_dir kind; the
+# expectation is the example of install_subdir.yaml (the LAST component of the name is kept unless strip_directory).
 import hashlib, itertools, json, os, re, shutil, stat, subprocess, sys, time
 from collections import deque
 from verif.core import Check, pmap, run_main, scratch_root, REPO, VERIF
@@ -203,7 +207,11 @@ class World:
         return syspath.lstrip('/') or '.'
 
     def entry_rel(self, e):
-        return os.path.normpath(self.treerel(M.syspath(e.where, self.prefix)))
+        return self.where_rel(e.where)
+
+    def where_rel(self, where):
+        # the directory a path denotes is the one its lexical normalisation names ('/' is its own parent)
+        return os.path.normpath(self.treerel(os.path.normpath(M.syspath(where, self.prefix))))
 
     def srcpath(self, src):
         return os.path.join(self.src if src[0] == 'src' else self.b, src[1])
@@ -262,9 +270,11 @@ class World:
                 rr = rn.run_edge(e, self.b, env=self.env(with_destdir=False))
                 if rr.rc != 0:
                     return 'build edge %s failed: %s' % (e.outs, rr.output[-300:])
+        for rel in self.proj.gone_after_setup:       # disappears between `meson setup` and the install
+            os.unlink(os.path.join(self.src, rel))
         # the file that "touching one source" modifies: the install source of the first file entry
         for e in self.proj.entries:
-            if e.kind == 'file' and not e.sub:
+            if e.kind == 'file' and not e.sub and e.src[1] not in self.proj.gone_after_setup:
                 self.touched = (self.srcpath(e.src), e.src[0])
                 if e.src[0] == 'build':
                     self.touch_base = os.stat(self.touched[0]).st_mtime_ns
@@ -348,6 +358,12 @@ def predict_install(w, T, sel):
         for i in range(1, len(parts)):
             out.append('/'.join(parts[:i]))
         return out
+    for wh in w.proj.optional_dirs:       # neither demanded nor forbidden (c11model._r_dotdot)
+        rel = w.where_rel(wh)
+        for p in parents(rel) + [rel]:
+            if p not in exp:
+                exp[p] = Exp('dir', M.UNSPEC, None, optional=True, implied=True)
+                skipped += 1
     for e, must in sel:
         rel = w.entry_rel(e)
         for p in parents(rel):
@@ -559,6 +575,11 @@ class Runner:
             rep['fault'] = self.cur_fault
         if extra:
             rep.update(extra)
+        if self.w.proj.key_class:
+            # a family about one class of input: the key names the class and the symptom (not the rule variant)
+            for r in self.w.proj.rules:
+                key = key.replace(':' + r.rid, '')
+            key = 'C11:%s:%s' % (self.w.proj.key_class, key.split(':', 1)[1])
         self.res['viol'].append((key, text, rep))
 
     # -- aborted installs --------------------------------------------------------------------------------------
@@ -1234,7 +1255,7 @@ COUNTERS = ('transitions', 'states', 'product_states', 'traces', 'tree_compares'
             'abort_created_paths', 'abort_log_checks', 'abort_reversal_checks', 'abort_reinstall_checks', 'fault_replaced',
             'plan_guessed_tags', 'guess_rules', 'guess_entries', 'guess_entries_one_tag', 'guess_entries_untagged', 'guess_entries_open',
             'guess_runs', 'guess_cells', 'guess_cells_must', 'guess_cells_left_out', 'guess_cells_open', 'guess_lookalike_left_out',
-            'guess_standard_dir_must')
+            'guess_standard_dir_must', 'rejected_at_setup')
 
 
 def count_guess_cells(w, rn_, res):
@@ -1276,6 +1297,10 @@ def run_job(job):
     err = w.create()
     res['setups'] = 1
     res['built'] = 1 if w.proj.needs_c else 0
+    if err and w.proj.may_reject and err.startswith('setup failed') and 'ERROR:' in err and 'Traceback' not in err:
+        res['rejected_at_setup'] = 1      # the build definition is refused: nothing gets installed, nothing to compare
+        shutil.rmtree(root, ignore_errors=True)
+        return res
     if err:
         res['internal'] = 'job %s: %s' % (job['id'], err)
         return res
@@ -1432,6 +1457,37 @@ def jobs_for(ck):
         for row in rows:
             jobs.append(row_job('L', [rid], row, idx, 'linear'))
             idx += 1
+    # family N: the SHAPE of the name given to install_subdir() (one component, several, trailing slash, the last component
+    # repeated earlier in the name, space / non-ASCII in a component that is not the last, called from a nested meson.build)
+    # x strip_directory {unset, false, true} x {no exclusions, exclude lists with entries relative to the installed directory
+    # and decoys relative to anything else}; quick: install_dir kind (relative / absolute) and the OA row rotate so that every
+    # shape meets every name style and both kinds; thorough: x both kinds x 3 rows (all name styles)
+    idx = cell = 0
+    for si, shape in enumerate(M.NAME_SHAPES):
+        for ti, strip in enumerate(M.NAME_STRIPS):
+            for ei, excl in enumerate(M.NAME_EXCLS):
+                kinds = M.NAME_DIRKINDS if ck.thorough else [M.NAME_DIRKINDS[(si + ti + ei) % 2]]
+                for dk in kinds:
+                    for k in range(3 if ck.thorough else 1):       # (+3 rows = the next name style)
+                        jobs.append(row_job('N', [M.name_rule_id(shape, strip, excl, dk)], OA9[(cell * 4 + 3 * k + seed) % 9], idx, 'linear'))
+                        idx += 1
+                cell += 1
+    # family Y: install_data() of a source that is a symlink x follow_symlinks {unset, true, false} x {same name, rename:} x
+    # {target kept, target removed after `meson setup` (only with follow_symlinks: false - a link is copied as a link)}
+    for i, cell in enumerate(M.LINK_CELLS):
+        rows = OA9 if ck.thorough else [OA9[(i * 4 + seed) % 9]]
+        for k, row in enumerate(rows):
+            jobs.append(row_job('Y', [M.link_rule_id(*cell)], row, i * len(rows) + k, 'linear'))
+    # family D: install_dir spelled with '..' x the kinds of rule that take an install_dir; the spellings that climb above the
+    # root need a DESTDIR to be re-rooted under
+    idx = 0
+    for ki, kind in enumerate(M.DOTDOT_KINDS):
+        for pi, sp in enumerate(M.DOTDOT_SPELLINGS):
+            cand = [row for row in OA9 if row[3] != 2] if sp.endswith('above-root') else OA9
+            rows = cand if ck.thorough else [cand[(ki * 4 + pi + seed) % len(cand)]]
+            for row in rows:
+                jobs.append(row_job('D', [M.dotdot_rule_id(kind, sp)], row, idx, 'linear'))
+                idx += 1
     # family G: the --tags clause for items WITHOUT install_tag, whose tag follows from the destination directory.  One project
     # per kind of rule that is tagged this way x directory layout; the project holds one rule per destination directory of
     # c11model.guess_bases x GUESS_MIDS (x file extension); it is installed with no --tags and with every single documented tag.
@@ -1595,6 +1651,26 @@ def main():
     ck.require(not full or tot['plan_entries'] > 50, 'install plan never compared')
     ck.part('symlinked_directories', rule_variants=sorted(M.EXTRA_BUILDERS), **fam.get('L', {}))
     ck.require(not full or fam.get('L', {}).get('transitions', 0) >= 2 * len(M.EXTRA_BUILDERS), 'install_subdir trees with a symlink to a directory were not installed')
+    ncells, nstyles, nkinds, n_multi_kept, n_compares = set(), set(), set(), 0, 0
+    for j in jobs:
+        if j['family'] == 'N' and not results[j['id']]['internal']:
+            _, shape, strip, excl, dk = j['rules'][0][0].split(':')
+            ncells.add((shape, strip, excl))
+            nstyles.add((shape, j['rules'][0][1]))
+            nkinds.add((shape, dk))
+            n_compares += results[j['id']]['tree_compares']
+            if shape in M.MULTI_SHAPES and strip != 'strip-true':
+                n_multi_kept += 1
+    ck.part('subdir_name_shapes', shapes=list(M.NAME_SHAPES), strip_directory=list(M.NAME_STRIPS), exclude_lists=list(M.NAME_EXCLS),
+            install_dir_kinds=list(M.NAME_DIRKINDS), cells_shape_x_strip_x_exclude=len(ncells), shape_x_name_style=len(nstyles),
+            shape_x_install_dir_kind=len(nkinds), jobs_name_of_several_components_kept_unstripped=n_multi_kept,
+            install_steps_compared=n_compares, **fam.get('N', {}))
+    full_n = ck.n_viol == 0 and (not ck.args.only or 'N' in ck.args.only.split(','))
+    ck.require(not full_n or (len(ncells) == len(M.NAME_SHAPES) * len(M.NAME_STRIPS) * len(M.NAME_EXCLS)
+                              and len(nstyles) == len(M.NAME_SHAPES) * len(M.STYLES) and len(nkinds) == len(M.NAME_SHAPES) * len(M.NAME_DIRKINDS)),
+               'install_subdir name shapes: a cell of shape x strip_directory x exclude lists, a shape x name style or a shape x install_dir kind is missing')
+    ck.require(not full_n or (n_multi_kept >= 2 * len(M.MULTI_SHAPES) and n_compares >= 3 * len(ncells)),
+               'install_subdir with a name of several components and strip_directory false was not installed and compared')
     if ck.thorough and full:
         ck.require(tot['strace_runs'] > 10 and tot['strace_mutations'] > 100, 'strace slice did not observe mutations')
     ck.assume('the reference install model (lib/verif/c11model.py) is my transcription of Installing.md, the install_* reference pages, '
@@ -1612,6 +1688,10 @@ def main():
     ck.assume('implicit install tags: "installed into <dir>" of Installing.md is read as path containment (the directory or one below it, also '
               'when spelled as an absolute path below the prefix); "installed-tests / systemtap subdir" as a directory component of that name '
               'anywhere above the item')
+    ck.assume('install_subdir name shapes: a trailing "/" on the subdir name names the same directory (POSIX pathname resolution), its last '
+              'component is the one before the slash; exclude entries that lead nowhere when read relative to the installed directory exclude '
+              'nothing ("Names are interpreted as paths relative to the subdir_name location"); a directory whose only file is excluded is '
+              'still installed (empty)')
     ck.assume('runs as root: chown to uid/gid 0 is a no-op and setuid bits survive chmod')
     for k in COUNTERS:
         if k not in ('states', 'transitions'):
@@ -1629,13 +1709,17 @@ def main():
                    'list of install_dir) WITHOUT install_tag x 2 directory layouts x every destination directory of {standard directories, look-alike '
                    'siblings, parents, namesakes elsewhere, absolute spellings inside and outside the prefix} x {itself, sub-directory, installed-tests, '
                    'systemtap and look-alikes of these} x file extensions, installed with no --tags and with each single documented tag; install_subdir trees holding a symlink to a directory x '
-                   'follow_symlinks {unset, true, false} through the linear history. states = '
+                   'follow_symlinks {unset, true, false} through the linear history; install_subdir name shapes: %d shapes of the name (one component, '
+                   'several, trailing slash, last component repeated, space/non-ASCII in a non-last component, call in a nested meson.build) x '
+                   'strip_directory {unset, false, true} x {no exclusions, exclude lists relative to the installed directory with decoys} x install_dir '
+                   '{relative, absolute}%s through the linear history. states = '
                    'distinct DESTDIR trees per run, transitions = install/uninstall commands executed, every one compared with the model'
                    % (len(M.RULE_IDS),
                       'style x mode x umask x prefix x DESTDIR kind = 162 configurations' if ck.thorough else 'the 9 rows of a pairwise-covering orthogonal array over name style, install_mode, install_umask, DESTDIR kind; prefix / initial tree / DESTDIR mechanism alternate with the index',
                       '9 rows' if ck.thorough else '1 rotating row',
                       ', every triple (x 1 rotating row)' if ck.thorough else '',
-                      'all' if ck.thorough else 'every 7th of the', len(FILTER_PROJECTS)),
+                      'all' if ck.thorough else 'every 7th of the', len(FILTER_PROJECTS), len(M.NAME_SHAPES),
+                      ' x 3 name styles' if ck.thorough else ' (kind and OA row rotating: every shape meets every name style and both kinds)'),
               exhaustive=True, rule_sets_size1=len(rule_sets[1]), rule_sets_size2=len(rule_sets[2]), rule_sets_size3=len(rule_sets[3]), jobs=len(jobs),
               distinct_violation_keys=len(keys_seen))
 
